@@ -27,6 +27,22 @@ func matchvec(p label.TargetPattern, univ []label.TargetLabel) string {
 	return b.String()
 }
 
+// prefix:target:recursive of a pattern
+func triple(p label.TargetPattern) string {
+	rec := "0"
+	if p.Recursive() {
+		rec = "1"
+	}
+	return w.Hex(p.Prefix()) + ":" + w.Hex(p.Target()) + ":" + rec
+}
+
+func partialFlag(p label.TargetPattern) string {
+	if p.IsPrefixPartial() {
+		return ":partial"
+	}
+	return ":complete"
+}
+
 func main() {
 	var univ []label.TargetLabel
 	w.Loop(func(f []string) string {
@@ -55,15 +71,20 @@ func main() {
 				return "err"
 			}
 			pr := p.String()
-			re := "reparse-err"
+			re, rp := "reparse-err", "reparse-err"
 			if p2, err2 := label.ParseTargetPattern(cur, pr); err2 == nil {
 				re = matchvec(p2, univ)
+				rp = triple(p2)
 			}
 			rec := "0"
 			if p.Recursive() {
 				rec = "1"
 			}
-			return fmt.Sprintf("ok\t%s\t%s\t%s\t%s\t%s\t%s", w.Hex(p.Prefix()), w.Hex(p.Target()), rec, w.Hex(pr), matchvec(p, univ), re)
+			// last field (implementation only, not part of the model's line): what the lenient parser
+			// used for shell completion makes of the same input
+			pp := label.ParsePartialTargetPattern(cur, w.Unhex(f[2]))
+			return fmt.Sprintf("ok\t%s\t%s\t%s\t%s\t%s\t%s\t%s\tpartial=%s", w.Hex(p.Prefix()), w.Hex(p.Target()), rec, w.Hex(pr),
+				matchvec(p, univ), re, rp, triple(pp)+partialFlag(pp))
 		}
 		return "unknown-command " + f[0]
 	})
